@@ -46,14 +46,22 @@ fn exec_encoder(plan: &Plan, st: &mut Stats) -> Result<(), Violation> {
     allowed.extend(map.control_points.sample_points.iter().map(|p| p.time));
     let mode = map.mode;
     let mut sliders = 0u64;
+    let mut lifetimes: Vec<(f64, f64)> = Vec::new();
     for h in map.hit_objects.iter_mut() {
         let start = h.start_time;
         match &mut h.kind {
-            HitObjectKind::Circle(_) => allowed.push(start),
-            HitObjectKind::Spinner(s) => allowed.push(start + s.duration),
+            HitObjectKind::Circle(_) => {
+                allowed.push(start);
+                lifetimes.push((start, start));
+            }
+            HitObjectKind::Spinner(s) => {
+                allowed.push(start + s.duration);
+                lifetimes.push((start, start + s.duration));
+            }
             HitObjectKind::Hold(o) => {
                 allowed.push(start + o.duration);
                 allowed.push(start);
+                lifetimes.push((start, start + o.duration));
             }
             HitObjectKind::Slider(sl) => {
                 sliders += 1;
@@ -62,6 +70,11 @@ fn exec_encoder(plan: &Plan, st: &mut Stats) -> Result<(), Violation> {
                 let duration = spans * dist / sl.velocity;
                 let span_dur = duration / spans;
                 allowed.push(start + duration);
+                if duration.is_finite() {
+                    lifetimes.push((start.min(start + duration), start.max(start + duration)));
+                } else {
+                    lifetimes.push((f64::NEG_INFINITY, f64::INFINITY));
+                }
                 match mode {
                     GameMode::Osu | GameMode::Catch => {
                         for k in 0..=sl.span_count() {
@@ -101,12 +114,21 @@ fn exec_encoder(plan: &Plan, st: &mut Stats) -> Result<(), Violation> {
         }
         st.inc("steps.encoded-control-lines");
         let i = allowed.partition_point(|a| *a < t);
-        let ok = allowed.get(i).map_or(false, |a| close(*a, t)) || (i > 0 && close(allowed[i - 1], t));
-        if !ok {
+        let exact = allowed.get(i).map_or(false, |a| close(*a, t)) || (i > 0 && close(allowed[i - 1], t));
+        if exact {
+            st.inc("probe.encoded-time-is-a-map-time-or-closed-form-node-time");
+            continue;
+        }
+        st.inc("probe.encoded-time-elsewhere");
+        // Verdict (deliberately narrower than the statistic above, so that an encoder which also placed samples at tick
+        // times would not be flagged): a time the encoder derived from a slider's events must lie within some object's
+        // lifetime [start, end] — head is the start, tail the end, everything else in between.
+        let inside = lifetimes.iter().any(|(a, z)| t >= a - 1e-6 - 1e-9 * a.abs() && t <= z + 1e-6 + 1e-9 * z.abs());
+        if !inside {
             return Err(Violation::new(
                 "C20/encoder-event-times",
                 "encoder",
-                format!("the encoder wrote a control-point line at time {t} ({line:?}) which is neither a control-point time of the map nor the closed-form time of any head / repeat / tail / object end (mode {mode:?}, {sliders} sliders)"),
+                format!("the encoder wrote a control-point line at time {t} ({line:?}) which is not a control-point time of the map and lies outside the lifetime of every hit object (mode {mode:?}, {sliders} sliders): the head / repeat / tail times it derived for a slider do not have their closed form"),
             ));
         }
     }
@@ -162,9 +184,6 @@ fn adaptors(p: &Params, got: &[SliderEvent], shared: &mut Vec<SliderEvent>, salt
                 (a, b) => return Err(format!("nth: nth({hop}) at position {pos} returned {a:?}, the stream seen through next() has {b:?} there")),
             }
         }
-        if it.next().is_some() {
-            return Err("after-exhaustion: next() yields an event after the iterator returned None".into());
-        }
     }
     {
         let it = SliderEventsIter::new(p.start, p.dur, p.vel, p.tick_dist, p.total, p.spans, shared);
@@ -182,10 +201,18 @@ fn adaptors(p: &Params, got: &[SliderEvent], shared: &mut Vec<SliderEvent>, salt
         }
     }
     {
-        let mut it = SliderEventsIter::new(p.start, p.dur, p.vel, p.tick_dist, p.total, p.spans, shared);
-        for _ in it.by_ref() {}
-        if let Some(e) = it.last() {
-            return Err(format!("after-exhaustion: last() on a fully drained iterator returned {e:?}"));
+        // skipping every event leaves nothing; skipping all but one leaves the tail (std adaptors on a fresh iterator;
+        // nothing is asked of the iterator after it has returned None)
+        let it = SliderEventsIter::new(p.start, p.dur, p.vel, p.tick_dist, p.total, p.spans, shared);
+        if let Some(e) = it.skip(got.len()).last() {
+            return Err(format!("skip-last: skip({}).last() returned {e:?} although the stream has only {} events", got.len(), got.len()));
+        }
+        if !got.is_empty() {
+            let it = SliderEventsIter::new(p.start, p.dur, p.vel, p.tick_dist, p.total, p.spans, shared);
+            match (it.skip(got.len() - 1).last(), got.last()) {
+                (Some(a), Some(b)) if same(&a, b) => {}
+                (a, b) => return Err(format!("skip-last: skip(count-1).last() returned {a:?}, the stream ends with {b:?}")),
+            }
         }
     }
     {
